@@ -5,6 +5,7 @@ import (
 	"strings"
 
 	"github.com/goghcrow/yae"
+	"github.com/goghcrow/yae/val"
 
 	"verif/mc/engine"
 	"verif/mc/gen"
@@ -82,6 +83,18 @@ func c01MoreCases(emit func(*engine.Case)) {
 			}
 		}
 	}
+	for pi := range c01DynLazyProgs() {
+		emit(&engine.Case{Family: "dynamic-lazy-calls", Key: fmt.Sprintf("p%d", pi), Args: []string{"dynlazy", fmt.Sprint(pi)}})
+	}
+	for pi := range c01SharedProgs() {
+		for ei := 0; ei < 3; ei++ {
+			for ej := 0; ej < 3; ej++ {
+				if ei != ej {
+					emit(&engine.Case{Family: "one-parse-two-compiles", Key: fmt.Sprintf("p%d|%d,%d", pi, ei, ej), Args: []string{"shared", fmt.Sprint(pi), fmt.Sprint(ei), fmt.Sprint(ej)}})
+				}
+			}
+		}
+	}
 	for si, s := range c16ContainerShapes() {
 		for vi := range c16Values(s) {
 			emit(&engine.Case{Family: "host-containers", Key: fmt.Sprintf("%s|%d", s, vi), Args: []string{"hostcont", fmt.Sprint(si), fmt.Sprint(vi)}})
@@ -120,6 +133,22 @@ func runC01More(c *engine.Case) *engine.Result {
 		return res
 	case "ohist":
 		return runC01History(c)
+	case "shared":
+		return runC01Shared(c)
+	case "dynlazy":
+		var pi int
+		fmt.Sscan(c.Args[1], &pi)
+		h := real.StdHost()
+		funs := h.EnvFuns()
+		env := real.EnvSpec{Rep: "raw", Binds: []real.Binding{{Name: "n", V: ref.NumV(3)}, {Name: "s", V: ref.StrV("msg")}, {Name: "c", V: ref.BoolV(false)},
+			{Name: "lzns", V: funs["lzns"]}, {Name: "lzif", V: funs["lzif"]}, {Name: "lz1", V: funs["lz1"]}}}
+		p := observe(c01DynLazyProgs()[pi], env, h, real.Backends, true)
+		res := &engine.Result{Execs: p.Execs, Outcome: p.outcomeSummary(), NonTrivial: true}
+		res.Violations = p.judgePreservation()
+		if p.RefErr != nil {
+			res.Violations = append(res.Violations, vf("harness-generated-ill-typed", "%s: %s", p.Src, p.RefErr.Msg))
+		}
+		return res
 	}
 	return runC01HostContainer(c)
 }
@@ -248,4 +277,122 @@ func runC01HostContainer(c *engine.Case) *engine.Result {
 	}
 	res.Outcome = fmt.Sprintf("accepted=%v", acc > 0)
 	return res
+}
+
+// one parsed tree compiled twice, against two differently typed environments: each closure must
+// keep producing values of the type inferred for ITS environment (overload resolution is per
+// compilation, never a property of the shared tree).
+func c01SharedProgs() []*gen.Term {
+	x := gen.VarT("x")
+	return []*gen.Term{
+		gen.CallT("string", x), gen.Infix("+", x, x), gen.CallT("len", x), gen.ListT(gen.Infix("+", x, x), x), gen.ObjT([]string{"v", "w"}, gen.Infix("+", x, x), gen.CallT("string", x)),
+		gen.CallT("if", gen.Infix("==", x, x), gen.Infix("+", x, x), x), gen.CallT("get", gen.ListT(x), gen.NumT(0), gen.Infix("+", x, x)), gen.Infix("==", gen.ListT(x), gen.ListT(gen.Infix("+", x, x))),
+		gen.CallT("id", gen.Infix("+", x, x)), gen.CallT("second", x, gen.Infix("+", x, x)),
+	}
+}
+
+func c01SharedEnv(i int) real.EnvSpec {
+	v := []*ref.V{ref.NumV(2), ref.StrV("s"), ref.ListV(gen.Num, nums(1, 2)...)}[i]
+	return real.EnvSpec{Rep: "raw", Binds: []real.Binding{{Name: "x", V: v}}}
+}
+
+func runC01Shared(c *engine.Case) *engine.Result {
+	res := &engine.Result{NonTrivial: true}
+	var pi, ei, ej int
+	fmt.Sscan(c.Args[1], &pi)
+	fmt.Sscan(c.Args[2], &ei)
+	fmt.Sscan(c.Args[3], &ej)
+	prog := c01SharedProgs()[pi]
+	src := prog.Render()
+	h := real.StdHost()
+	type side struct {
+		env  real.EnvSpec
+		ck   *ref.Checker
+		ty   *gen.Ty
+		terr *ref.TypeErr
+		term *gen.Term
+	}
+	mk := func(i int) *side {
+		s := &side{env: c01SharedEnv(i)}
+		s.ck = ref.NewChecker(h.RefFuns(), s.env.Types())
+		s.term = prog.Clone()
+		s.ty, s.terr = s.ck.Check(s.term)
+		return s
+	}
+	var outs []string
+	for _, b := range real.Backends {
+		e := real.NewEngine(b, h)
+		tree := e.Parse(src)
+		sides := []*side{mk(ei), mk(ej)}
+		closures := make([]func(*val.Val) (*val.Val, string), 2)
+		for k, s := range sides {
+			s := s
+			var cl func(env *val.Env) *val.Val
+			rejected := ""
+			func() {
+				defer func() {
+					if r := recover(); r != nil {
+						rejected = fmt.Sprint(r)
+					}
+				}()
+				cl = e.CompileExpr(tree, s.env.RawTypeEnv())
+			}()
+			res.Execs++
+			if (rejected == "") != (s.terr == nil) {
+				res.Violations = append(res.Violations, vf("compile-accept-mismatch", "%s compiled from a shared parsed tree against %s on %s: accepted=%v, the rules say %v", src, fmtEnv(s.env), b, rejected == "", s.terr == nil))
+			}
+			if rejected == "" {
+				closures[k] = func(*val.Val) (v *val.Val, fail string) {
+					defer func() {
+						if r := recover(); r != nil {
+							fail = fmt.Sprint(r)
+						}
+					}()
+					return cl(real.RuntimeEnv(h, s.env)), ""
+				}
+			}
+		}
+		// run first, second, first again
+		for _, k := range []int{0, 1, 0} {
+			if closures[k] == nil || sides[k].terr != nil {
+				continue
+			}
+			v, fail := closures[k](nil)
+			res.Execs++
+			res.States++
+			label := fmt.Sprintf("%s, one parsed tree compiled against %s and %s on %s, running the closure for %s", src, fmtEnv(sides[0].env), fmtEnv(sides[1].env), b, fmtEnv(sides[k].env))
+			if fail != "" {
+				ev := ref.NewEval(sides[k].ck.Res, sides[k].env.Values())
+				if _, rf := ev.Run(sides[k].term); rf == nil {
+					res.Violations = append(res.Violations, vf("accepted-run-fails", "%s: %s", label, stable(fail)))
+				}
+				continue
+			}
+			rv, werr := real.FromVal(v)
+			if werr != nil {
+				res.Violations = append(res.Violations, vf("value-illformed", "%s produced an ill-formed value: %v", label, werr))
+				continue
+			}
+			if !gen.Equal(rv.T, sides[k].ty) {
+				res.Violations = append(res.Violations, vf("value-type-mismatch", "%s: inferred %s, produced a value of type %s (%s)", label, sides[k].ty, rv.T, rv.Describe()))
+			}
+			outs = append(outs, rv.T.String())
+		}
+	}
+	res.Outcome = strings.Join(outs, ",")
+	return res
+}
+
+// lazy function values with parameters of different types, called through an expression callee
+func c01DynLazyProgs() []*gen.Term {
+	v, num := gen.VarT, gen.NumT
+	pick := func(n string) *gen.Term { return gen.SubT(gen.ListT(v(n)), num(0)) }
+	return []*gen.Term{
+		gen.DCallT(pick("lzns"), gen.Infix("+", v("n"), num(1)), v("s")),
+		gen.ListT(gen.DCallT(pick("lzns"), v("n"), gen.StrT("a")), num(1)),
+		gen.ObjT([]string{"r", "t"}, gen.DCallT(pick("lzns"), v("n"), v("s")), v("s")),
+		gen.DCallT(pick("lzif"), v("c"), num(1), gen.Infix("+", v("n"), num(1))),
+		gen.ListT(gen.DCallT(pick("lzif"), gen.Prefix("!", v("c")), v("n"), num(0)), gen.DCallT(pick("lz1"), v("n"), num(9))),
+		gen.Infix("+", gen.DCallT(gen.CallT("if", v("c"), v("lz1"), v("lz1")), v("n"), num(2)), gen.DCallT(pick("lzns"), num(4), gen.Infix("+", v("s"), v("s")))),
+	}
 }
